@@ -28,6 +28,39 @@ func TestVerifC06(t *testing.T) {
 		return
 	}
 	rng := hk.NewRNG(hk.Seed(), "c06")
+	// FIRST, before anything else shares the heap with the calls under observation: every tag size with the destination's
+	// capacity exactly the size of the result, ending at an inaccessible page. A Seal that writes more than
+	// len(plaintext)+tagSize bytes (a full 16-byte tag that is cut afterwards) faults here - in the rest of the check the
+	// same write would land in some other heap object, possibly the model's, and nothing seen afterwards could be trusted.
+	for _, asm := range paths() {
+		bad := false
+		withAsm(asm, func() {
+			pn := pathName(asm)
+			key := rng.Bytes(16)
+			g := ref.NewGCM(key)
+			for tag := 12; tag <= 16; tag++ {
+				a, err := newAEAD(key, 12, tag)
+				if err != nil {
+					continue
+				}
+				for _, pl := range []int{0, 1, 4, 15, 16, 20, 33, 100} {
+					nonce, pt, aad := rng.Bytes(12), rng.Bytes(pl), rng.Bytes(pl%7)
+					gb := hk.NewGuarded(pl+tag, hk.PlaceEnd)
+					var out []byte
+					p, pm, isFault, _ := hk.Try(func() { out = a.Seal(gb.B[:0], nonce, pt, aad) })
+					if p || !bytes.Equal(out, g.Seal(nonce, pt, aad, tag)) {
+						r.Violation(fmt.Sprintf("seal-differs-from-sp800-38d:%s:dst-of-exact-capacity-before-an-inaccessible-page", pn), hk.D{"key": hk.Hex(key), "nonce": hk.Hex(nonce), "pt": hk.Hex(pt), "aad": hk.Hex(aad), "tag_size": tag, "panic": pm, "write_fault_behind_dst": isFault, "got": hk.Hex(out)})
+						bad = bad || isFault
+					}
+					gb.Free()
+					r.Eval(fmt.Sprintf("%s|exact-capacity-guarded-dst|tag=%d", pn, tag))
+				}
+			}
+		})
+		if bad {
+			return // the path writes outside its destination: the heap of this process is not to be trusted any further
+		}
+	}
 	cases := gcmCases(rng, hk.N(1, 2))
 	cases = append(cases, wrapCases(rng, hk.N(80, 300))...)
 	// lengths whose BIT length needs more than 24 bits (exercises the upper bytes of the length block)
